@@ -22,10 +22,19 @@ Open Scope list_scope.
    fault placement, PROVIDED no operation is AddOrUpdateVirtualServer with weight updates. *)
 Theorem C12_no_reload_while_held_partial :
   forall e os s,
-    (forall o, In o os -> has_weights o = false) ->
+    (forall o, In o os -> forces_enable e o = false) ->
     held_scan (negb (enabled s)) (trace (snd (run e s os))) = Some (negb (enabled (fst (run e s os)))).
 Proof. exact no_reload_while_held_partial. Qed.
 Print Assumptions C12_no_reload_while_held_partial.
+
+(* with the repair of F15 (fixes/F15.diff: the weight updates wait for the reload that ends the
+   window instead of forcing one) the full statement holds: every history, every state *)
+Theorem C12_no_reload_while_held_fixed :
+  forall e os s,
+    fx_weights (fx e) = true ->
+    held_scan (negb (enabled s)) (trace (snd (run e s os))) = Some (negb (enabled (fst (run e s os)))).
+Proof. exact no_reload_while_held_fixed. Qed.
+Print Assumptions C12_no_reload_while_held_fixed.
 
 Theorem C12_held_scan_meaning :
   forall t h h', held_scan h t = Some h' ->
@@ -37,7 +46,7 @@ Print Assumptions C12_held_scan_meaning.
    AddOrUpdateVirtualServer meets a two-way split with DynamicWeightChangesReload, because the
    operation calls EnableReloads() itself.  The witness is replayed on the real code. *)
 Theorem C12_no_reload_while_held_refuted :
-  exists e os, held_scan (negb (enabled init)) (trace (snd (run e init os))) = None.
+  exists e os, fx e = no_fixes /\ held_scan (negb (enabled init)) (trace (snd (run e init os))) = None.
 Proof. exact no_reload_while_held_refuted. Qed.
 Print Assumptions C12_no_reload_while_held_refuted.
 
@@ -46,14 +55,14 @@ Print Assumptions C12_no_reload_while_held_refuted.
    EnableReloads no Reload and no API call happens -- with the same restriction *)
 Theorem C12_ctl_no_reload_while_held_partial :
   forall e ts c,
-    (forall t, In t ts -> forall o, In o (t_work t) -> has_weights o = false) ->
+    (forall t, In t ts -> forall o, In o (t_work t) -> forces_enable e o = false) ->
     held_scan (negb (enabled (cfg c))) (strace (snd (run_sync e c ts)))
     = Some (negb (enabled (cfg (fst (run_sync e c ts))))).
 Proof. exact ctl_no_reload_while_held_partial. Qed.
 Print Assumptions C12_ctl_no_reload_while_held_partial.
 
 Theorem C12_ctl_no_reload_while_held_refuted :
-  exists e ts, held_scan true (strace (snd (run_sync e ctl_init ts))) = None.
+  exists e ts, fx e = no_fixes /\ held_scan true (strace (snd (run_sync e ctl_init ts))) = None.
 Proof. exact ctl_no_reload_while_held_refuted. Qed.
 Print Assumptions C12_ctl_no_reload_while_held_refuted.
 
@@ -127,6 +136,7 @@ Print Assumptions C12_batch_end.
    enableBatchReload. *)
 Theorem C12_batch_end_only_if_refuted :
   exists e ts c1 xs x,
+    fx e = no_fixes /\
     run_sync e ctl_init ts = (c1, xs ++ [x]) /\
     dirty (cfg c1) = false /\
     existsb is_change (strace (skipn 1 (xs ++ [x]))) = false /\
@@ -139,10 +149,17 @@ Print Assumptions C12_batch_end_only_if_refuted.
    later idle batch ends by rewriting the main configuration and reloading *)
 Theorem C12_batch_end_updateall_sticky_refuted :
   exists e ts, let x := last (snd (run_sync e ctl_init ts)) {| slog := []; reported := false; swallowed := false |} in
+    fx e = no_fixes /\
     existsb (fun y => match y with EWrite FMain _ _ => true | _ => false end) (slog x) = true /\
     existsb is_change (slog x) = false /\ existsb is_reload (slog x) = true.
 Proof. exact uab_sticky_refuted. Qed.
 Print Assumptions C12_batch_end_updateall_sticky_refuted.
+
+(* with the repair of F16c (fixes/F16c.diff) the flag is down after every batch *)
+Theorem C12_updateall_flag_reset_fixed :
+  forall e c t, fx_uab (fx e) = true -> batch c = true -> t_qlen t = 0 -> uab (fst (sync e c t)) = false.
+Proof. exact uab_reset_fixed. Qed.
+Print Assumptions C12_updateall_flag_reset_fixed.
 
 (* ---------------------------------------------------------------------------------------------
    4. A failed reload is returned to the caller and reported on the resources.
@@ -174,24 +191,36 @@ Print Assumptions C12_ctl_failure_reported_or_swallowed_partial.
 
 Theorem C12_ctl_swallowed_only_there :
   forall e c t, swallowed (snd (sync e c t)) = true ->
-    (t_qlen t = 0 /\ batch c = true /\ batch (fst (sync e c t)) = false /\ uab (fst (sync e c t)) = false)
-    \/ reports t = false \/ t_all_reports t = false.
+    (t_qlen t = 0 /\ batch c = true /\ batch (fst (sync e c t)) = false /\
+     (fx_batchrep (fx e) = false \/ t_all t = []))
+    \/ reports e t = false \/ t_all_reports t = false.
 Proof. exact ctl_swallowed_only_there. Qed.
 Print Assumptions C12_ctl_swallowed_only_there.
 
 (* Controller, what fails (F16b): the reload that ends a batch fails and nothing is reported *)
 Theorem C12_ctl_failure_propagates_refuted :
   exists e ts, let x := last (snd (run_sync e ctl_init ts)) {| slog := []; reported := false; swallowed := false |} in
-    existsb is_failed_reload (slog x) = true /\ reported x = false /\ swallowed x = true.
+    fx e = no_fixes /\ existsb is_failed_reload (slog x) = true /\ reported x = false /\ swallowed x = true.
 Proof. exact ctl_failure_propagates_refuted. Qed.
 Print Assumptions C12_ctl_failure_propagates_refuted.
+
+(* with the repairs of F16b and F16d (fixes/F16b.diff, fixes/F16d.diff): every failed Reload of a
+   sync is reported and none is swallowed, whenever there is an object to report on *)
+Theorem C12_ctl_failure_reported_fixed :
+  forall e c t,
+    fx_batchrep (fx e) = true -> fx_endprep (fx e) = true ->
+    (t_kind t = TOther -> t_reports t = true) -> t_all_reports t = true -> t_all t <> [] ->
+    let x := snd (sync e c t) in
+    reported x = existsb is_failed_reload (slog x) /\ swallowed x = false.
+Proof. exact ctl_failure_reported_fixed. Qed.
+Print Assumptions C12_ctl_failure_reported_fixed.
 
 (* ---------------------------------------------------------------------------------------------
    Non-vacuity: a history that leaves the start-up window, changes files, meets a failed reload
    and a failed API call, and the hypotheses of the theorems above hold on it. *)
 Definition ex_res (k : rk) (n : string) (v : Z) : res :=
   {| r_kind := k; r_name := n; r_ver := v; r_apis := [[(n ++ "_u0")%string; (n ++ "_u1")%string]]; r_weights := 0 |}.
-Definition ex_env : env := {| plus := true; ro := fails_at [1]; ao := fails_at [2] |}.
+Definition ex_env : env := {| plus := true; ro := fails_at [1]; ao := fails_at [2]; fx := no_fixes |}.
 Definition ex_ops : list op :=
   [OAdd (ex_res KIng "default-a" 0); OEnable; OReloadForBatch true; OAdd (ex_res KVS "vs_default_v" 0);
    OEndpoints KVS [ex_res KVS "vs_default_v" 1]; OEndpoints KVS [ex_res KVS "vs_default_v" 2];
